@@ -453,6 +453,9 @@ func RunC18(ctx *core.Ctx, r *core.Rng) {
 		for p := 1024; p < n+2; p *= 2 {
 			set[p-1], set[p], set[p-2] = true, true, true
 		}
+		for p := 100; p < n+2; p *= 10 { // round decimal limits too
+			set[p-1], set[p], set[p-2] = true, true, true
+		}
 		for i := 0; i < 4; i++ {
 			set[r.Intn(n+1)] = true
 		}
@@ -490,12 +493,17 @@ func RunC18(ctx *core.Ctx, r *core.Rng) {
 			c.Input = append(append([]byte(core.Pick(r, []string{"\x1f\x8b\x08", "\x1f\x8b\x08", "\x1f\x8b", "\xef\xbb\xbf"})), r.Bytes(r.Range(0, 12), "\x00\x02\x08\xff\x1fAa\n")...), c.Input...)
 		}
 		if long { // tens of thousands of tiny records
-			f = core.Pick(r, []*fmts.Format{fmts.Fasta, fmts.Bed, fmts.Fastq})
+			f = core.Pick(r, []*fmts.Format{fmts.Fasta, fmts.Bed, fmts.Fastq, fmts.Sam, fmts.SamH})
 			c.Format = f.Name
 			n := r.Range(66000, 90000)
+			if f.Name == "sam" || f.Name == "samh" {
+				n = r.Range(10500, 20000) // a long run of malformed lines: an error item each, the iteration carries on
+			}
 			var b bytes.Buffer
 			for i := 0; i < n; i++ {
 				switch f.Name {
+				case "sam", "samh":
+					fmt.Fprintf(&b, "bad%d\t1\n", i)
 				case "fasta":
 					fmt.Fprintf(&b, ">%d\nAC\n", i)
 				case "bed":
@@ -540,6 +548,31 @@ func RunC18(ctx *core.Ctx, r *core.Rng) {
 		c.File = cfg
 		if (kind == "plain" || kind == "gz") && r.Chance(0.04) {
 			c.FDBurst = FDLimit + 100
+		}
+		if r.Chance(0.0008) { // a file beyond 8 MiB: size-driven strategies (read-ahead helpers) switch on
+			f = core.Pick(r, []*fmts.Format{fmts.Fasta, fmts.Fastq})
+			c.Format = f.Name
+			var b bytes.Buffer
+			nrec := 0
+			for total := r.Range(9<<20, 11<<20); b.Len() < total; nrec++ {
+				l := r.Range(30000, 90000)
+				if f == fmts.Fasta {
+					fmt.Fprintf(&b, ">r%d\n", nrec)
+					b.Write(r.Bytes(l, "ACGT"))
+					b.WriteString("\n")
+				} else {
+					fmt.Fprintf(&b, "@r%d\n", nrec)
+					b.Write(r.Bytes(l, "ACGT"))
+					b.WriteString("\n+\n")
+					b.Write(r.Bytes(l, "IJ"))
+					b.WriteString("\n")
+				}
+			}
+			c.Input = b.Bytes()
+			c.File = &sim.FileCfg{Kind: "plain"}
+			c.FDBurst = 0
+			c.Stops = []int{0, 1, nrec / 2, nrec - 1}
+			ctx.Stats.Inc("probe/file_over_8MiB")
 		}
 	case x < 82:
 		c.Iter = core.Pick(r, []string{"preorder", "postorder"})
